@@ -477,7 +477,7 @@ void oracle_storage_reuse(World& w)
             static_assert(sizeof(impl::T) <= sizeof s.bytes);                                                                                         \
             return new (s.bytes) impl::T(ARG);                                                                                                        \
          },                                                                                                                                           \
-         [](const ipr::Node* n) { static_cast<const impl::T*>(n)->~T(); }}
+         [](const ipr::Node* n) { std::destroy_at(static_cast<const impl::T*>(n)); }}
    const Maker makers[] = {MK(Identifier, str), MK(Operator, str),  MK(Suffix, id),  MK(Conversion, t), MK(Ctor_name, t),        MK(Dtor_name, t), MK(Type_id, t),
                            MK(Pointer, t),      MK(Reference, t),   MK(Rvalue_reference, t),            MK(Decltype, e),         MK(Sizeof, e),    MK(Alignof, e),
                            MK(Typeid, e),       MK(Label, id)};
